@@ -7,9 +7,14 @@ Line protocol shared by the C08 and C09 drivers.
   isspace <cp>*                      -> one 0/1 per code point
   pred <name> <rationals…>           -> value of a regenerated predicate / of its documented spec (C09)
   defaults                           -> LAParams defaults and the Plane grid size
+  annospec <V|H> <word_margin> <n> { <id> <x0> <y0> <x1> <y1> }*
+      -> members of a line with these glyphs as the word-margin SPECIFICATION prescribes (`Spec.lineElemsBreak`)
+  heapmin <n> { <skip 0|1> <d> <seq1> <seq2> }*
+      -> index (in the given list) of the entry that `popMin HEntry.le` returns, "-" for an empty heap
 -/
 import PdfVerif.Model.Layout
 import PdfVerif.Spec.Layout
+import PdfVerif.Spec.LayoutAnno
 
 namespace LayoutIO
 open PdfVerif PdfVerif.Gen.Layout PdfVerif.Layout
@@ -137,6 +142,47 @@ def doPred : List String → String
       | _, _ => "bad-op"
   | _ => "bad-op"
 
+def parseGlyphs : Nat → List String → Option (List Glyph)
+  | 0, [] => some []
+  | 0, _ => none
+  | n + 1, id :: x0 :: y0 :: x1 :: y1 :: rest =>
+    match id.toNat?, ratOfString x0, ratOfString y0, ratOfString x1, ratOfString y1, parseGlyphs n rest with
+    | some id, some x0, some y0, some x1, some y1, some gs => some (⟨id, ⟨x0, y0, x1, y1⟩, []⟩ :: gs)
+    | _, _, _, _, _, _ => none
+  | _, _ => none
+
+def doAnnoSpec : List String → String
+  | cls :: wm :: n :: rest =>
+    match ratOfString wm, n.toNat? with
+    | some wm, some n =>
+      match parseGlyphs n rest with
+      | some gs => join ((Layout.Spec.lineElemsBreak (cls == "V") wm gs).map showElem)
+      | none => "bad-items"
+    | _, _ => "bad-op"
+  | _ => "bad-op"
+
+def parseHeap : Nat → List String → Option (List HEntry)
+  | 0, [] => some []
+  | 0, _ => none
+  | n + 1, sk :: d :: a :: b :: rest =>
+    match ratOfString d, a.toNat?, b.toNat?, parseHeap n rest with
+    | some d, some a, some b, some h => some (⟨sk == "1", d, a, b⟩ :: h)
+    | _, _, _, _ => none
+  | _, _ => none
+
+def doHeapMin : List String → String
+  | n :: rest =>
+    match n.toNat? with
+    | some n =>
+      match parseHeap n rest with
+      | some h =>
+        match popMin HEntry.le h with
+        | some (m, _) => toString (h.findIdx (· == m))
+        | none => "-"
+      | none => "bad-items"
+    | none => "bad-op"
+  | _ => "bad-op"
+
 def step (line : String) : String :=
   match words line with
   | "analyze" :: rest => doAnalyze rest
@@ -145,6 +191,8 @@ def step (line : String) : String :=
       | some c => if cpIsSpace c then "1" else "0"
       | none => "?")
   | "pred" :: rest => doPred rest
+  | "annospec" :: rest => doAnnoSpec rest
+  | "heapmin" :: rest => doHeapMin rest
   | ["defaults"] =>
     join ([DEFAULT_LINE_OVERLAP, DEFAULT_CHAR_MARGIN, DEFAULT_LINE_MARGIN, DEFAULT_WORD_MARGIN, DEFAULT_BOXES_FLOW].map ratToString)
       ++ " " ++ toString PLANE_GRIDSIZE
